@@ -37,16 +37,43 @@ TRUSTED_BASE = ['harness/tprog.py']
 
 
 class B:
-    """program builder"""
-    def __init__(self):
+    """program builder.  `mask` decides which of the operand leaves require grad: None = all of them; otherwise a draw per leaf
+    (`rg=None`), so that constants and tensors that require grad meet in every position of every identity (a leaf created with an
+    explicit `rg` keeps it)"""
+    def __init__(self, rng=None, mask=None):
         self.lines, self.n = [], 0
         self.shape = []
-        self.leaves = []
+        self.leaves = []          # leaves that require grad
+        self.consts = []          # floating-point operand leaves that do not (their gradient must stay absent on both sides)
+        self.rng, self.mask = rng, mask
+        self.free = []            # leaves whose flag was drawn
 
-    def leaf(self, sh, data, rg=True, dt='f64'):
+    def leaf(self, sh, data, rg=None, dt='f64'):
+        drawn = rg is None
+        if drawn:
+            if isinstance(self.mask, (list, tuple)):      # the flags of the successive operand leaves, given explicitly
+                rg = bool(self.mask[len(self.free)]) if len(self.free) < len(self.mask) else True
+            else:
+                rg = True if self.mask is None else self.rng.chance(self.mask)
         self.lines.append(gen_dag.leaf_line(sh, data, rg, dt)); self.shape.append(tuple(sh)); self.n += 1
+        if drawn: self.free.append(self.n - 1)
         if rg: self.leaves.append(self.n - 1)
+        elif dt in ('f64', 'f32'): self.consts.append(self.n - 1)
         return self.n - 1
+
+    def require(self, k):
+        """leaf k requires grad after all (an identity whose two sides would otherwise differ in the flag of the root, or a
+        program without any differentiable operand)"""
+        if k in self.leaves: return
+        t = self.lines[k].split(' ')
+        assert t[1] == 'leaf'
+        t[4] = '1'
+        self.lines[k] = ' '.join(t)
+        self.leaves = sorted(self.leaves + [k])
+        if k in self.consts: self.consts.remove(k)
+
+    def mask_str(self):
+        return ''.join('g' if k in self.leaves else 'c' for k in sorted(self.leaves + self.consts))
 
     def op(self, name, ins, *args, nout=1):
         self.lines.append(' '.join(['t op', name, show_ints(ins)] + [str(a) for a in args]))
@@ -161,6 +188,8 @@ def gen_mf_seq(rng, mb, n, d, pool_ids):
 
 def finish(b, lhs, rhs, rng, tol=1e-9):
     """query both sides, backward from each with the same g, compare leaf gradients"""
+    if not b.leaves and b.free:
+        b.require(b.rng.pick(b.free) if b.rng else b.free[0])
     lines = list(b.lines)
     pairs = []
     lines += [f't val {lhs}', f't val {rhs}']
@@ -176,7 +205,7 @@ def finish(b, lhs, rhs, rng, tol=1e-9):
             for lf in b.leaves: lines.append(f't zero {lf}')
             lines.append(f"t bw {root} {show_ints(sh)} {show_floats(g)}")
             idx = []
-            for lf in b.leaves:
+            for lf in b.leaves + b.consts:          # (a constant operand holds no gradient, on either side)
                 lines.append(f't grad {lf}'); idx.append(len(lines) - 1)
             sides[side] = idx
         pairs += list(zip(sides['l'], sides['r']))
@@ -194,11 +223,14 @@ def finish(b, lhs, rhs, rng, tol=1e-9):
                 lines.append(f't grad {lf}'); idx.append(len(lines) - 1)
             tot[side] = idx
         pairs += list(zip(tot['l'], tot['r']))
-    return {'lines': lines, 'pairs': pairs, 'tol': tol}
+    return {'lines': lines, 'pairs': pairs, 'tol': tol, 'mask': b.mask_str()}
 
 
-def gen_identity(rng, which, big=False):
-    b = B()
+def gen_identity(rng, which, big=False, mask=None):
+    """`mask`: None = every operand requires grad; p = every operand leaf requires grad with probability p (at least one does);
+    a list = the flags of the operand leaves in order (stack / unbind then take that many operands, conv2d a bias when there are three)"""
+    nmask = len(mask) if isinstance(mask, (list, tuple)) else None
+    b = B(rng, None if which in ('seq', 'neuronmod') else mask)
     V = lambda sh, kind='any': gen_ops.vals(rng, sh, kind)
     if which == 'ce':
         n, c = rng.randint(1, 4), rng.randint(2, 4)
@@ -258,11 +290,14 @@ def gen_identity(rng, which, big=False):
         (H, kh, sh_, ph, dh), (W, kw, sw, pw, dw) = gen_ops.geom2(rng)
         lh = (H + 2 * ph - dh * (kh - 1) - 1) // sh_ + 1; lw = (W + 2 * pw - dw * (kw - 1) - 1) // sw + 1
         x, w = b.leaf((n, c, H, W), V((n, c, H, W))), b.leaf((co, c, kh, kw), V((co, c, kh, kw)))
-        l = b.op('conv2d', [x, w], 0, show_ints((sh_, sw)), show_ints((ph, pw)), show_ints((dh, dw)))
+        bias = b.leaf((co,), V((co,))) if (nmask == 3 or (nmask is None and rng.chance(.5))) else None          # with a bias: ... + b per output channel
+        l = b.op('conv2d', [x, w] + ([bias] if bias is not None else []), int(bias is not None), show_ints((sh_, sw)), show_ints((ph, pw)), show_ints((dh, dw)))
         u = b.op('unfold', [x], show_ints((kh, kw)), show_ints((dh, dw)), show_ints((sh_, sw)), show_ints((ph, pw)), fbits(0.0))
         wm = b.op('reshape', [w], show_ints((co, c * kh * kw)))
         mm = b.op('matmul', [wm, u])                      # (co, ckk) @ (N, ckk, L) -> (N, co, L)
         r = b.op('reshape', [mm], show_ints((n, co, lh, lw)))
+        if bias is not None:
+            bb = b.op('reshape', [bias], show_ints((1, co, 1, 1))); r = b.op('add', [r, bb])
         return finish(b, l, r, rng)
     if which in ('maxpool', 'avgpool'):
         n, c = rng.randint(1, 2), rng.randint(1, 2)
@@ -310,7 +345,7 @@ def gen_identity(rng, which, big=False):
         r = b.sop('div', sm, f's{fbits(float(cnt))}', 1)
         return finish(b, l, r, rng)
     if which == 'stack':
-        s = gen_ops.rshape(rng, 0, 3); k = rng.randint(1, 3)
+        s = gen_ops.rshape(rng, 0, 3); k = nmask or rng.randint(1, 4)
         ax = rng.randrange(-(len(s) + 1), len(s) + 1)
         xs = [b.leaf(s, V(s)) for _ in range(k)]
         l = b.op('stack', xs, ax)
@@ -318,13 +353,14 @@ def gen_identity(rng, which, big=False):
         r = b.op('concat', us, ax)
         return finish(b, l, r, rng)
     if which == 'unbind':
-        s = gen_ops.rshape(rng, 0, 3); k = rng.randint(1, 3)
+        s = gen_ops.rshape(rng, 0, 3); k = nmask or rng.randint(1, 4)
         ax = rng.randrange(-(len(s) + 1), len(s) + 1)
         xs = [b.leaf(s, V(s)) for _ in range(k)]
         st = b.op('stack', xs, ax)
         outs = b.op('unbind', [st], ax, nout=k)
         outs = outs if isinstance(outs, list) else [outs]
         j = rng.randrange(k)
+        b.require(xs[j])      # (slice j of a stack with any differentiable operand requires grad; the clone of a constant would not)
         c0 = b.op('clone', [xs[j]])
         return finish(b, outs[j], c0, rng)
     if which in ('maxpool1d', 'avgpool1d'):
@@ -494,6 +530,7 @@ def _module_side(c, io):
     return None
 
 
+SUBSETS = {'stack': 3, 'unbind': 3, 'linear': 3, 'addmm': 3, 'conv2d': 3, 'sub': 2, 'div': 2}
 IDS = ['ce', 'bcel', 'logsoftmax', 'linear', 'neuron', 'addmm', 'conv2d', 'maxpool', 'avgpool', 'maxpool1d', 'avgpool1d', 'sub', 'div', 'mean', 'stack', 'unbind', 'unbind2',
        'flatten', 'movedim', 'seq', 'seq', 'neuronmod']
 
@@ -503,10 +540,24 @@ def cases(rng, tier):
     reps = 8 if tier == 'quick' else 300
     for w in IDS:
         for _ in range(reps * (3 if w in ('ce', 'logsoftmax', 'bcel', 'seq', 'neuronmod') else 1)):      # the numerically delicate identities and the module programs get more operand sets
-            c = gen_identity(rng, w, big=True) if (w in ('maxpool', 'avgpool') and _ == 0) else gen_identity(rng, w)
+            # which operands require grad: all of them (a third of the operand sets), or a draw per operand — constants and
+            # differentiable tensors in every position of every identity with several operands
+            mask = None if _ % 3 == 0 else rng.pick([.5, .5, .3, .7])
+            c = gen_identity(rng, w, big=True) if (w in ('maxpool', 'avgpool') and _ == 0) else gen_identity(rng, w, mask=mask)
             c['id'] = w
             c['desc'] = w + ': ' + ' ; '.join(c['lines'])[:500]
             out.append(c)
+    # EVERY non-empty subset of the operands requiring grad, for the identities with several operands (list-valued stack / unbind,
+    # linear and conv2d with bias, addmm, a - b, a / b): one operand set per subset (quick), several (thorough)
+    import itertools
+    for w, n in SUBSETS.items():
+        for flags in itertools.product((0, 1), repeat=n):
+            if not any(flags): continue
+            for _ in range(1 if tier == 'quick' else 12):
+                c = gen_identity(rng, w, mask=list(flags))
+                c['id'] = w; c['subset'] = True
+                c['desc'] = w + ' (operands requiring grad: ' + c['mask'] + '): ' + ' ; '.join(c['lines'])[:500]
+                out.append(c)
     return out
 
 
@@ -608,6 +659,12 @@ def distribution(cases):
     d = {}
     for c in cases:
         d[c['id']] = d.get(c['id'], 0) + 1
+        m = c.get('mask', '')
+        if len(m) > 1:          # which operand leaves require grad (g) / are constants (c), in operand order
+            k = 'operands requiring grad: ' + ('all' if 'c' not in m else 'mixed, a constant before a differentiable one' if m.find('c') < m.rfind('g') else 'mixed, constants last')
+            d[k] = d.get(k, 0) + 1
+            if c.get('subset'):
+                d[f"{c['id']} mask {m}"] = d.get(f"{c['id']} mask {m}", 0) + 1
     return d
 
 
